@@ -91,6 +91,25 @@ def main() -> int:
                                           "original_sql": astgen.to_sql(s), "renamed_sql": astgen.to_sql(s, astgen.Opts(rename={a: nn})),
                                           "original_result": b, "renamed_result": g,
                                           "spec": "renaming an alias that is local to a derived table, to a name that is not visible in that derived table, changes nothing"})
+        # one binding renamed: two different derived tables in sibling scopes share an alias vs. carry distinct ones
+        if d == "ansi" or not quick:
+            pairs = [astgen.gen_same_alias_pair(r) for _ in range(40 if quick else 600)]
+            pspec = sqltie.spec_strings([b for _, b in pairs]) if d == "ansi" else None
+            same = t2tie.summaries(sqltie.records([a for a, _ in pairs], dialect=d))
+            dist_ = t2tie.summaries(sqltie.records([b for _, b in pairs], dialect=d))
+            for k, ((sa, sb), x, y) in enumerate(zip(pairs, same, dist_)):
+                ck.count()
+                dist["pools"]["one-binding"] = dist["pools"].get("one-binding", 0) + 1
+                if x.startswith("ERR:InvalidSyntax") or y.startswith("ERR:InvalidSyntax"):
+                    dist["rejected_by_parser"] += 1
+                    continue
+                ck.nontriv((d, "one-binding", astgen.to_sql(sa)))
+                if pspec is not None and y != pspec[k]:
+                    spec_failures.append({"suite": "I-vs-S", "dialect": d, "sql": astgen.to_sql(sb), "impl": y, "spec": pspec[k]})
+                elif x != y:
+                    spec_failures.append({"suite": "metamorphic-rename", "dialect": d, "pool": "one-binding",
+                                          "original_sql": astgen.to_sql(sa), "renamed_sql": astgen.to_sql(sb), "original_result": x, "renamed_result": y,
+                                          "spec": "two derived tables in sibling scopes may share an alias: renaming one of them to a fresh name changes nothing"})
         # tie on a renamed variant
         recs = []
         for s in stmts[: (40 if quick else 300)]:
@@ -111,7 +130,7 @@ def main() -> int:
                 "correspondence T2 (renamed text) between Tree/*.v and sqllineage/core/parser/sqlfluff",
                 "every renaming of every generated statement was compared with the original on the implementation; no failing input")
     return ck.finish(rule="%d generated statements with local names x 6 renaming pools (fresh, mixed case, quoted with upper case, names of other tables, "
-                          "keyword-like, upper case), plus scoped statements whose derived-table-local alias takes the bare name of a table of the enclosing query, x with/without AS x dialects %s, random injective assignment per statement; non-trivial = distinct "
+                          "keyword-like, upper case), plus scoped statements whose derived-table-local alias takes the bare name of a table of the enclosing query, plus statements in which two sibling-scope derived tables share an alias vs. carry distinct ones, x with/without AS x dialects %s, random injective assignment per statement; non-trivial = distinct "
                           "(dialect, pool, AS, renamed SQL)" % (len(stmts), ",".join(dialects)))
 
 
